@@ -237,11 +237,20 @@ func lockOn(field string, names ...string) px.Pred {
 // listed fields of the receiver happens while the mutex in `mu` is held.
 // entryHeld: the function is entered with the lock held (helper).
 func lockGuard(c *Ctx, rule, pkg, fname, mu string, fields []string, entryHeld bool, writeNeedsW bool) {
-	f := c.fn(rule, pkg, fname)
+	lockGuardFn(c, rule, pkg+"."+fname, c.fn(rule, pkg, fname), mu, fields, entryHeld, writeNeedsW, nil, false)
+}
+
+// lockGuardFn: as lockGuard, on an arbitrary function (closure); inline lists
+// same-package helpers analysed in place (entered with the lock held);
+// noUserCalls additionally forbids calling user-supplied functions under the lock.
+func lockGuardFn(c *Ctx, rule, cname string, f *ssa.Function, mu string, fields []string, entryHeld bool, writeNeedsW bool, inline []string, noUserCalls bool) {
 	if f == nil {
 		return
 	}
-	ps := c.paths(rule, f, px.Config{MaxVisits: 2, MaxPaths: 50000, MayPanic: userPanics})
+	pkg, fname := "", cname
+	ps := c.paths(rule, f, px.Config{MaxVisits: 2, MaxPaths: 50000, MayPanic: userPanics, Inline: func(ci *px.CallInfo, d int) bool {
+		return ci.Static != nil && nameIn(ci.Static.Name(), inline)
+	}})
 	lock := lockOn(mu, "Lock")
 	rlock := lockOn(mu, "RLock")
 	unlock := lockOn(mu, "Unlock")
@@ -254,9 +263,10 @@ func lockGuard(c *Ctx, rule, pkg, fname, mu string, fields []string, entryHeld b
 		if !nameIn(n, fields) {
 			return "", false
 		}
-		return n, a.X != nil && a.X.Strip(false).Kind == px.KParam
+		b := a.X.Strip(false)
+		return n, b != nil && (b.Kind == px.KParam || b.Kind == px.KFreeVar || (b.Kind == px.KLoad && b.X != nil && b.X.Kind == px.KFreeVar))
 	}
-	c.forall(rule, pkg+"."+fname, fmt.Sprintf("fields %v are accessed only while %s is held (writes under the write lock)", fields, mu), f, ps, func(p *px.Path) (bool, string) {
+	c.forall(rule, pkg+fname, fmt.Sprintf("fields %v are accessed only while %s is held (writes under the write lock)", fields, mu), f, ps, func(p *px.Path) (bool, string) {
 		w, r := 0, 0
 		if entryHeld {
 			w = 1
@@ -265,7 +275,12 @@ func lockGuard(c *Ctx, rule, pkg, fname, mu string, fields []string, entryHeld b
 			e := &p.Events[i]
 			switch {
 			case lock(e):
+				if w > 0 {
+					return false, "Lock while the same mutex is already held (self-deadlock) at " + c.P.Pos(e.Pos)
+				}
 				w++
+			case noUserCalls && e.Kind == px.EvCall && e.Call.IsDyn() && w+r > 0:
+				return false, "a user-supplied function is called while the group lock is held at " + c.P.Pos(e.Pos)
 			case unlock(e):
 				w--
 			case rlock(e):
